@@ -12,6 +12,7 @@ package main
 import (
 	"bufio"
 	"encoding/json"
+	"errors"
 	"fmt"
 	"math/big"
 	"os"
@@ -23,6 +24,7 @@ import (
 	"strings"
 	"sync"
 	"sync/atomic"
+	"time"
 
 	fiatshamir "github.com/consensys/gnark-crypto/fiat-shamir"
 	"github.com/consensys/gnark/constraint"
@@ -97,6 +99,57 @@ func plan(c *vh.Check, curves []c19k.Curve) (jobs []job, desc map[string]any) {
 		}
 	}
 	allDeps := []string{c19k.DepNone, c19k.DepFwd, c19k.DepBwd, c19k.DepSingle, c19k.DepFan}
+	// explicit dependency patterns: EVERY acyclic assignment of "explicit value or output of another
+	// instance" to the (input wire, instance) slots, up to a number of edges
+	topoNamed := func(name string) *c19k.Topo {
+		for _, t := range topo4 {
+			if t.String() == name {
+				return t
+			}
+		}
+		c.Fatal("topology %s not in the enumeration", name)
+		return nil
+	}
+	nX := 0
+	addX := func(kind string, cu int, name string, n, maxEdges, pats int) {
+		t := topoNamed(name)
+		for _, es := range c19k.EdgePatterns(t, n, maxEdges) {
+			cs := c19k.WithEdges(t, n, "mimc", es)
+			if kind == "P" {
+				jobs = append(jobs, job{kind: "P", curve: cu, cs: cs, pats: pats})
+			} else {
+				jobs = append(jobs, job{kind: "E", curve: cu, cs: cs, pairs: 0})
+			}
+			nX++
+		}
+	}
+	const oneIn, twoIn, twoInAdd = "w0=in;w1=mul(w0,w0)", "w0=in;w1=in;w2=mul(w0,w1)", "w0=in;w1=in;w2=add(w0,w1)"
+	if c.Want("P") {
+		if c.Quick() {
+			addX("P", 0, oneIn, 4, 4, 2)
+			addX("P", 0, twoIn, 2, 4, 2)
+			addX("P", 0, twoIn, 4, 2, 1)
+			addX("P", 0, twoInAdd, 4, 2, 1)
+		} else {
+			addX("P", 0, oneIn, 4, 4, 5)
+			addX("P", 0, oneIn, 8, 2, 2)
+			addX("P", 0, twoIn, 2, 4, 5)
+			addX("P", 0, twoIn, 4, 8, 2)
+			addX("P", 0, twoInAdd, 4, 3, 2)
+			addX("P", 1, oneIn, 4, 4, 2)
+			addX("P", 1, twoIn, 4, 2, 2)
+		}
+	}
+	if c.Want("E") {
+		addX("E", 0, twoIn, 2, 4, 0)
+		if c.Quick() {
+			addX("E", 0, oneIn, 4, 1, 0)
+		} else {
+			addX("E", 0, oneIn, 4, 4, 0)
+			addX("E", 0, twoIn, 4, 2, 0)
+		}
+	}
+	defer func() { desc["explicit-dependency-patterns"] = nX }()
 	if c.Quick() {
 		if c.Want("P") {
 			// every circuit of <= 3 wires: every instance count, every dependency pattern; MiMC, and the
@@ -223,11 +276,41 @@ func solve(ccs constraint.ConstraintSystem, q *big.Int, sec []*big.Int) (err err
 	if werr != nil {
 		return werr, ""
 	}
-	pan = vh.Recover(func() {
-		_, err = ccs.Solve(w, solver.OverrideHint(hintenv.BsbID, hintenv.CommitHash), solver.WithNbTasks(1))
-	})
-	return
+	if hung.Load() >= maxHung {
+		return errTooManyHung, ""
+	}
+	type res struct {
+		err error
+		pan string
+	}
+	ch := make(chan res, 1)
+	go func() {
+		var r res
+		r.pan = vh.Recover(func() {
+			_, r.err = ccs.Solve(w, solver.OverrideHint(hintenv.BsbID, hintenv.CommitHash), solver.WithNbTasks(1))
+		})
+		ch <- r
+	}()
+	select {
+	case r := <-ch:
+		return r.err, r.pan
+	case <-time.After(hangAfter):
+		// a solve of these circuits takes milliseconds; the goroutine cannot be killed and keeps a core busy
+		hung.Add(1)
+		return nil, hangMark
+	}
 }
+
+const (
+	hangAfter = 2 * time.Minute
+	hangMark  = "HANG: the solver did not return within 2 minutes (a solve of this circuit takes milliseconds)"
+	maxHung   = 2
+)
+
+var (
+	hung           atomic.Int64
+	errTooManyHung = errors.New("skipped: too many hung solver goroutines in this process")
+)
 
 func short(s string) string {
 	if i := strings.IndexByte(s, '\n'); i >= 0 {
@@ -273,6 +356,16 @@ func runP(c *vh.Check, cu c19k.Curve, cs *c19k.Case, key string, pats, idx int) 
 		c.Evals.Add(1)
 		c.Traces.Add(1)
 		det := map[string]any{"case": cs.String(), "curve": cu.Name, "inputs(slot order)": fmt.Sprint(in), "expected outputs": fmt.Sprint(sec[len(in):])}
+		if err == errTooManyHung {
+			c.Cap("P: " + err.Error())
+			return
+		}
+		if pan == hangMark {
+			det["panic"] = pan
+			c.Outcome(fam + ":solver-hang")
+			c.Violation(fmt.Sprintf("%s:pattern=%d:solver-hang", key, j), det)
+			return
+		}
 		if pan != "" {
 			det["panic"] = pan
 			c.Violation(fmt.Sprintf("%s:pattern=%d:solver-panic", key, j), det)
@@ -414,7 +507,15 @@ func runE(c *vh.Check, cu c19k.Curve, cs *c19k.Case, key string, pairs int) {
 	in := pattern(cs, q, 4)
 	// honest run: records the genuine hint outputs
 	if err, pan := solve(ccs, q, in); err != nil || pan != "" {
-		c.Violation(key+":honest-unsat", map[string]any{"case": cs.String(), "error": fmt.Sprint(err), "panic": pan})
+		if err == errTooManyHung {
+			c.Cap("E: " + err.Error())
+			return
+		}
+		kind := ":honest-unsat"
+		if pan == hangMark {
+			kind = ":solver-hang"
+		}
+		c.Violation(key+kind, map[string]any{"case": cs.String(), "error": fmt.Sprint(err), "panic": pan})
 		return
 	}
 	if st.calls != 2 {
